@@ -608,13 +608,13 @@ Proof.
       set (parts1 := flush_string s dq (set_pos t (S (pos t))) parts) in *.
       assert (Htok : forall tok, tok = match parts1 with
                                        | [ETok k v i] => ETok k v i
-                                       | _ => ETemplate dq parts1 tstart (S (pos t))
+                                       | _ => ETemplate dq parts1 tstart (S (pos t) - 1)
                                        end ->
                 tok_ok s tok /\ Z.of_nat tstart <= zstart tok /\ etok_stop tok <= Z.of_nat (S (pos t))).
       { intros tok ->.
-        assert (Hgen : tok_ok s (ETemplate dq parts1 tstart (S (pos t))) /\
-                       Z.of_nat tstart <= zstart (ETemplate dq parts1 tstart (S (pos t))) /\
-                       etok_stop (ETemplate dq parts1 tstart (S (pos t))) <= Z.of_nat (S (pos t))).
+        assert (Hgen : tok_ok s (ETemplate dq parts1 tstart (S (pos t) - 1)) /\
+                       Z.of_nat tstart <= zstart (ETemplate dq parts1 tstart (S (pos t) - 1)) /\
+                       etok_stop (ETemplate dq parts1 tstart (S (pos t) - 1)) <= Z.of_nat (S (pos t))).
         { split; [constructor; eapply chain_hi; [exact Hf|lia]|]. unfold zstart; simpl; lia. }
         destruct parts1 as [|e [|e2 l]]; try exact Hgen; destruct e; try exact Hgen.
         inversion Hf as [|? ? ? ? F1 F2 F3]; subst. inversion F3; subst.
